@@ -42,12 +42,14 @@ void _matmul(const T * FASTOR_RESTRICT a, const T * FASTOR_RESTRICT b, T * FASTO
 
     // Non-primitive types
     FASTOR_IF_CONSTEXPR (!is_primitive_v_<T>) {
+        FASTOR_VERIF_ROUTE("matmul.non_primitive");
         internal::_matmul_base_non_primitive<T,M,K,N>(a,b,out);
         return;
     }
 
     // Matrix-vector specialisation
     FASTOR_IF_CONSTEXPR (N==1UL) {
+        FASTOR_VERIF_ROUTE("matmul.matvec");
         internal::_matvecmul<T,M,K>(a,b,out);
         return;
     }
@@ -57,12 +59,14 @@ void _matmul(const T * FASTOR_RESTRICT a, const T * FASTOR_RESTRICT b, T * FASTO
 
     // Use specialised kernels
     FASTOR_IF_CONSTEXPR((N==V::Size || N==2*V::Size || N==3*V::Size || N==4*V::Size || N==5*V::Size) && V::Size!=1UL) {
+        FASTOR_VERIF_ROUTE("matmul.smalln_exact");
         internal::_matmul_mk_smalln<T,M,K,N>(a,b,out);
         return;
     }
 
 #if defined(FASTOR_AVX2_IMPL) || defined(FASTOR_HAS_AVX512_MASKS)
     FASTOR_IF_CONSTEXPR((N<5*V::Size && N!=1UL)) {
+        FASTOR_VERIF_ROUTE("matmul.smalln_masked");
         internal::_matmul_mk_smalln<T,M,K,N>(a,b,out);
         return;
     }
@@ -70,21 +74,25 @@ void _matmul(const T * FASTOR_RESTRICT a, const T * FASTOR_RESTRICT b, T * FASTO
 
 #if defined(FASTOR_AVX2_IMPL) || defined(FASTOR_HAS_AVX512_MASKS)
     FASTOR_IF_CONSTEXPR( M*N*K > 27UL && N % V::Size <= 1UL) {
+        FASTOR_VERIF_ROUTE("matmul.base");
         internal::_matmul_base<T,M,K,N>(a,b,out);
         return;
     }
     else FASTOR_IF_CONSTEXPR( M*N*K > 27UL && N % V::Size > 1UL) {
+        FASTOR_VERIF_ROUTE("matmul.base_masked");
         internal::_matmul_base_masked<T,M,K,N>(a,b,out);
         return;
     }
 #else
     FASTOR_IF_CONSTEXPR( M*N*K > 27UL ) {
+        FASTOR_VERIF_ROUTE("matmul.base");
         internal::_matmul_base<T,M,K,N>(a,b,out);
         return;
     }
 #endif
     else
     {
+        FASTOR_VERIF_ROUTE("matmul.tiny");
         // For all other cases where M,N,K is too small
         // this simple version is sufficient
         constexpr int ROUND_ = ROUND_DOWN(N,V::Size);
